@@ -1,4 +1,5 @@
 import Varpulis.Driver.Window
+import Varpulis.Model.Sase
 /-! `vmodel partition` (C04): partitioned windows/aggregates against per-key replays of the real code and
 against the model; `to_partition_key`; partitioned sequence patterns by correspondence of the real engine
 with itself (whole stream vs per-key sub-streams). Window lines are delegated to the `window` driver. -/
@@ -10,6 +11,8 @@ structure St where
   mode : String := "win"         -- "win" | "agg"
   aggN : Nat := 1
   aggWin : Count := {}
+  sasePat : Option Varpulis.Sase.Pat := none
+  saseEvs : List Varpulis.Sase.Event := []
 
 /-- windows emitted by the plain machine of `kind` on the sub-sequence of key `k` -/
 def perKeyModel (kind : Kind) (ops : List Op) (k : String) (engine : Bool) : List (List Nat) :=
@@ -31,6 +34,34 @@ def aggExpected (batch : List Ev) : List (String × (Nat × Nat)) :=
 def fmtAggRes (l : List (String × (Nat × Nat))) : String :=
   if l.isEmpty then "-" else ";".intercalate (l.map fun p => s!"k={p.1},n={p.2.1},s={p.2.2}")
 
+
+/-! ### partitioned sequence patterns on the SASE model (Model/Sase.lean) -/
+
+/-- `[all] T as x` -/
+def parseSaseStep (ws : List String) : Option Varpulis.Sase.Step :=
+  match ws with
+  | [ty, "as", al] => some ⟨ty, none, some al, false⟩
+  | ["all", ty, "as", al] => some ⟨ty, none, some al, true⟩
+  | _ => none
+
+/-- `A as a -> B as b [-> …]`, partitioned by field `k`, no negations -/
+def parseSasePat (ws : List String) : Option Varpulis.Sase.Pat :=
+  let groups := (" ".intercalate ws).splitOn " -> "
+  (groups.mapM fun g => parseSaseStep (words g)).map fun steps => { steps := steps, partition := some "k", negs := [] }
+
+def saseKey (tok : String) : Option (List (String × Varpulis.Sase.Val)) :=
+  if tok == "-" then some []
+  else if tok.startsWith "s:" then some [("k", .str (tok.drop 2).toString)]
+  else if tok.startsWith "i:" then (tok.drop 2).toString.toInt?.map fun i => [("k", .int i)]
+  else none
+
+def fmtSaseMatch (m : Varpulis.Sase.Match) : String :=
+  let f := fun (a : String) => match m.caps.lookup a with | some e => toString e.idx | none => "_"
+  s!"{f "a"}-{f "b"}-{f "c"}"
+
+def saseModel (p : Varpulis.Sase.Pat) (evs : List Varpulis.Sase.Event) : String :=
+  ",".intercalate (sortBy (fun a b => decide (a ≤ b)) ((Varpulis.Sase.matchesOf p {} evs).map fmtSaseMatch))
+
 def allDistinct : List String → Bool
   | [] => true
   | a :: l => !l.contains a && allDistinct l
@@ -43,9 +74,15 @@ def step (st : St) (line : String) : St × String :=
     (match n.toNat? with
      | some n => ({ mode := "agg", aggN := n }, "")
      | none => (st, "BADLINE"))
-  | "new" :: "sase" :: _ => ({ mode := "sase" }, "")
+  | "new" :: "sase" :: pat =>
+    (match parseSasePat pat with
+     | some p => ({ mode := "sase", sasePat := some p }, "")
+     | none => (st, "BADLINE"))
   | "new" :: _ => let (w, v) := WindowD.step {} line; ({ win := w, mode := "win" }, v)
-  | "sev" :: _ => (st, "")
+  | ["sev", ty, id, key] =>
+    (match id.toNat?, saseKey key with
+     | some id, some kf => ({ st with saseEvs := st.saseEvs ++ [⟨id, ty, ("id", .int id) :: kf⟩] }, "")
+     | _, _ => (st, "BADLINE"))
   | "vpl" :: _ => (st, "")
   | "perkey" :: keytok :: _ =>
     (match parseKey keytok with
@@ -81,7 +118,11 @@ def step (st : St) (line : String) : St × String :=
        let w := (w.drop 2).toString; let p := (p.drop 2).toString; let u := (u.drop 2).toString
        if w != p then (st, s!"JUDGE C04 pattern matches of the whole stream differ from the union of per-key runs (same program)")
        else if w != u then (st, s!"JUDGE C04 pattern matches of the whole stream differ from the union of per-key runs (program without partition_by)")
-       else (st, "ok")
+       else
+         -- the whole-stream matches against the SASE model (to which `Props.C04.partitioned_patterns_*` apply)
+         (match st.sasePat with
+          | some pat => (st, verdict ("W:" ++ saseModel pat st.saseEvs) ("W:" ++ w))
+          | none => (st, "ok"))
      | _ => (st, "BADLINE"))
   | ws =>
     if st.mode == "agg" then
